@@ -488,6 +488,9 @@ def run(chk):
     quick = chk.tier == 'quick'
     lim = tr_c07_limits.check()
     r = chk.prove()
+    r2 = chk.prove('Properties_C09fn')      # function-like expansion and conditional directives
+    if not r2['ok']:
+        r = dict(r, ok=False, log=r['log'] + '\n' + r2['log'])
     c2m, model = tools()
     model_fn = tool_fn()
     chk.cov['trusted_base'] += ['extraction: ExtrOcamlBasic only, no Extract Constant/Inductive of our own',
